@@ -1128,6 +1128,16 @@ mod pipeline {
         }
     }
 
+    impl Drop for ReadPipelineAdapter {
+        // Close the read end before the commands are waited for (front to
+        // back): otherwise the last command can block writing to it while an
+        // earlier command, blocked in turn, is being waited for.
+        fn drop(&mut self) {
+            let last = self.0.last_mut().unwrap();
+            last.stdout.take();
+        }
+    }
+
     #[derive(Debug)]
     struct WritePipelineAdapter(Vec<Popen>);
 
